@@ -1002,6 +1002,10 @@ func (x g) text(html bool) string {
 	if x.p(4) { // empty content, or only a line end
 		return []string{"", "", "\r\n"}[x.n(3)]
 	}
+	if x.p(2) { // a larger one
+		c := sizeClasses[1+x.n(2)]
+		return sizedText(c[x.n(len(c))]+x.n(3)-1, html, x.n(100))
+	}
 	var sb strings.Builder
 	if html {
 		sb.WriteString("<p>")
@@ -1058,11 +1062,80 @@ func (x g) content() []byte {
 	if x.p(5) {
 		return nil
 	}
+	if x.p(2) { // a larger one
+		c := sizeClasses[1+x.n(2)]
+		return sizedBytes(c[x.n(len(c))]+x.n(3)-1, x.n(100))
+	}
 	b := make([]byte, x.n(200))
 	for i := range b {
 		b[i] = byte(x.n(256))
 	}
 	return b
+}
+
+// sizedText: CRLF text of exactly n bytes (lines of at most 70 bytes; '=' and non-ASCII near the start)
+func sizedText(n int, html bool, salt int) string {
+	var sb strings.Builder
+	if html {
+		sb.WriteString("<p>")
+	}
+	if n >= 40 {
+		sb.WriteString("caf\u00e9 a=b \u20ac\r\n")
+	}
+	for k := 0; sb.Len() < n; k++ {
+		line := fmt.Sprintf("line %d/%d of a body of %d bytes, filler: ", k, salt, n)
+		line += strings.Repeat("abcdefghij", 7)[:(k*7+salt)%(70-len(line)+1)]
+		sb.WriteString(line + "\r\n")
+	}
+	t := []byte(sb.String()[:n])
+	if n > 0 && t[n-1] == '\r' { // no line break cut in half at the end (a bare CR is outside the feature set)
+		t[n-1] = '.'
+	}
+	return string(t)
+}
+
+// sizedBytes: n bytes over all byte values
+func sizedBytes(n, salt int) []byte {
+	b := make([]byte, n)
+	v := uint32(salt*2654435761 + n)
+	for i := range b {
+		v = v*1664525 + 1013904223
+		b[i] = byte(v >> 24)
+	}
+	return b
+}
+
+// content sizes over several orders of magnitude: around the base64 line (57 bytes in, 76 out), the streaming
+// decoders' chunk sizes (~750, 1 k, 3 k, 4 k, 8 k) and beyond (20 k, 64 k)
+var sizeClasses = [][]int{{1, 56, 57, 58, 75, 76, 77, 114, 228}, {700, 746, 747, 748, 749, 760, 800, 1000, 1023, 1024, 1025},
+	{3000, 3072, 4095, 4096, 4097, 8191, 8192, 8193}, {20000, 65535, 65536, 65537, 100000}}
+
+const nSizedPos = 6
+
+// sizedSpec: content of n bytes at position pos - 0 plain of an alternative pair, 1 html of the pair, 2 single-part
+// body, 3 attachment, 4 embed, 5 body part next to an attachment
+func sizedSpec(enc string, pos, n int) spec {
+	small, smallH := "short text", "<p>short</p>"
+	s := spec{enc: enc, subject: fmt.Sprintf("size %d at %d", n, pos), fromName: "Sender", nTo: 1, date: 1700000000}
+	switch pos {
+	case 0:
+		t := sizedText(n, false, pos)
+		s.plain, s.html = &t, &smallH
+	case 1:
+		t := sizedText(n, true, pos)
+		s.plain, s.html = &small, &t
+	case 2:
+		t := sizedText(n, false, pos)
+		s.plain = &t
+	case 3:
+		s.plain, s.atts = &small, []fileSpec{{"big.bin", sizedBytes(n, pos)}}
+	case 4:
+		s.plain, s.embs = &small, []fileSpec{{"big.png", sizedBytes(n, pos)}}
+	default:
+		t := sizedText(n, false, pos)
+		s.plain, s.atts = &t, []fileSpec{{"a.txt", []byte("attached")}}
+	}
+	return s
 }
 
 func (x g) spec() spec {
@@ -1310,6 +1383,26 @@ func Run(r *hx.Run, replay []hx.Case) {
 			if pe != enc {
 				runRT(r, r.NewID(), spec{enc: enc, subject: "empty contents", fromName: "Sender", nTo: 1, date: 1700000000,
 					plain: &empty, penc: pe, html: &htm, atts: ef})
+			}
+		}
+	}
+	// content SIZES over several orders of magnitude, for every encoding and every place a content can be in (part of
+	// a multipart, single-part body, attachment, embed): every leaf must come back byte for byte, all of it.
+	// quick: one size of each class per (encoding, place), rotating so that every size is used; thorough: all
+	for ei, enc := range []string{"quoted-printable", "base64", "8bit"} {
+		for pos := 0; pos < nSizedPos; pos++ {
+			for ci, class := range sizeClasses {
+				if r.Tier == "thorough" {
+					for _, n := range class {
+						runRT(r, r.NewID(), sizedSpec(enc, pos, n))
+					}
+				} else {
+					q := class
+					if ci == 3 {
+						q = class[:4] // 100 000 bytes: thorough only
+					}
+					runRT(r, r.NewID(), sizedSpec(enc, pos, q[(ei*nSizedPos+pos+ci)%len(q)]))
+				}
 			}
 		}
 	}
